@@ -82,7 +82,10 @@ Inductive msg :=
 | MRunTask (s t : nat)
 | MCompleteTask (s t : nat) (st : status)
 | MJumpToStage (s target : nat) (jctx jouts : kv)
-| MSignalStage (s name : nat) (persistent : bool).
+| MSignalStage (s name : nat) (persistent : bool)
+| MPauseTask (s t : nat)
+| MResumeStage (s : nat)
+| MRestartStage (s : nat).
 
 Record qrow := { q_id : nat; q_msg : msg; q_attempts : Z }.
 
@@ -555,6 +558,7 @@ Definition handle_run_task (orc : oracle) (s : state) (id i t : nat) (attempts :
           if negb (run_task_guard (t_status tk)) then ok [c_mark id]
           else if w_canceled s then ok [txn [c_mark id; c_push (MCompleteTask i t CANCELED)]]
           else if is_complete (w_status s) then ok [txn [c_mark id; c_push (MCompleteTask i t CANCELED)]]
+          else if status_eqb (w_status s) PAUSED then ok [txn [c_mark id; c_push (MPauseTask i t)]]
           else
             let r := orc i t (count_execs s i t) in
             {| h_pre := Some (i, t);
@@ -787,6 +791,47 @@ Definition handle_jump (s : state) (id i tg : nat) (jctx : kv) : hres :=
       end
   end.
 
+(* ---- PauseTask / ResumeStage / RestartStage (workflow_control.py) ---- *)
+Definition handle_pause_task (s : state) (id i t : nat) : hres :=
+  match get_stage s i with
+  | None => ok []
+  | Some st =>
+      match nth_error (s_tasks st) t with
+      | None => ok []
+      | Some tk =>
+          if is_complete (t_status tk) then ok [c_mark id]
+          else if negb (can_transition (t_status tk) PAUSED) || negb (can_transition (s_status st) PAUSED) then raised
+          else ok [txn [c_put i (st_set st PAUSED (s_started st) (s_ended st) (s_fired st) (s_branches st) (s_has_exc st)
+                                        (s_ctx st) (s_outs st) (task_set (s_tasks st) t PAUSED (t_started tk))); c_mark id]]
+      end
+  end.
+
+Definition handle_resume_stage (s : state) (id i : nat) : hres :=
+  match get_stage s i with
+  | None => ok []
+  | Some st =>
+      if negb (status_eqb (s_status st) PAUSED) then ok [c_mark id]
+      else
+        let wf_ops := if status_eqb (w_status s) PAUSED then c_wf RUNNING else [] in
+        match find (fun p => status_eqb (t_status (snd p)) PAUSED) (combine (seqn (length (s_tasks st))) (s_tasks st)) with
+        | Some (ti, tk) =>
+            ok [txn [c_put i (st_set st RUNNING (s_started st) (s_ended st) (s_fired st) (s_branches st) (s_has_exc st)
+                                     (s_ctx st) (s_outs st) (task_set (s_tasks st) ti RUNNING (t_started tk)));
+                     wf_ops; c_mark id; c_push (MRunTask i ti)]]
+        | None => ok [txn [c_put i (st_status st RUNNING); wf_ops; c_mark id]]
+        end
+  end.
+
+Definition handle_restart_stage (s : state) (id i : nat) : hres :=
+  match get_stage s i with
+  | None => ok []
+  | Some st =>
+      if w_canceled s then ok [c_mark id]
+      else if negb (is_complete (s_status st)) then ok [c_mark id]
+      else ok [txn [c_put i (reset_for_retry st); (if is_complete (w_status s) then c_wf RUNNING else []);
+                    c_mark id; c_push (MStartStage i 0)]]
+  end.
+
 (* ------------------------------------------------------------------------------------------ *)
 (* dispatch, delivery, recovery                                                                *)
 (* ------------------------------------------------------------------------------------------ *)
@@ -806,6 +851,9 @@ Definition handle (orc : oracle) (s : state) (r : qrow) : hres :=
   | MCompleteTask i t x => handle_complete_task s id i t x
   | MJumpToStage i tg c o => handle_jump s id i tg c
   | MSignalStage i n p => handle_signal_stage s id i n p
+  | MPauseTask i t => handle_pause_task s id i t
+  | MResumeStage i => handle_resume_stage s id i
+  | MRestartStage i => handle_restart_stage s id i
   end.
 
 Definition find_row (s : state) (id : nat) : option qrow := find (fun r => q_id r =? id) (w_queue s).
@@ -839,7 +887,7 @@ Fixpoint apply_commits (cs : list commit) (s : state) : state :=
 (* recovery.py:_recover_workflow — one transaction pushing every recovery message *)
 Definition has_pending_for_task (s : state) (i t : nat) : bool :=
   existsb (fun r => match q_msg r with
-                    | MStartTask a b | MRunTask a b | MCompleteTask a b _ => (a =? i) && (b =? t)
+                    | MStartTask a b | MRunTask a b | MCompleteTask a b _ | MPauseTask a b => (a =? i) && (b =? t)
                     | _ => false end) (w_queue s).
 
 Definition recover_stage (s : state) (i : nat) (st : stage) : list msg :=
@@ -889,7 +937,14 @@ Inductive action :=
 | Recover
 | Cancel                                      (* Orchestrator.cancel: push CancelWorkflow *)
 | Signal (i name : nat) (persistent : bool)   (* push SignalStage *)
-| Submit.                                     (* Orchestrator.start: push StartWorkflow *)
+| Submit                                      (* Orchestrator.start: push StartWorkflow *)
+| Pause                                       (* store.pause: workflow status := PAUSED (operator) *)
+| Unpause                                     (* Orchestrator.unpause: push ResumeStage for every PAUSED stage *)
+| Restart (i : nat).                          (* Orchestrator.restart: push RestartStage *)
+
+Definition paused_stages (s : state) : list nat :=
+  filter (fun j => match get_stage s j with Some u => status_eqb (s_status u) PAUSED | None => false end)
+         (seqn (length (w_stages s))).
 
 Definition step (orc : oracle) (s : state) (a : action) : state :=
   match a with
@@ -908,6 +963,9 @@ Definition step (orc : oracle) (s : state) (a : action) : state :=
   | Cancel => push MCancelWorkflow s
   | Signal i n p => push (MSignalStage i n p) s
   | Submit => push MStartWorkflow s
+  | Pause => set_wf_status PAUSED s
+  | Unpause => apply_commit s (c_pushes (map MResumeStage (paused_stages s)))
+  | Restart i => push (MRestartStage i) s
   end.
 
 Definition run (orc : oracle) (s : state) (acts : list action) : state := fold_left (step orc) acts s.
